@@ -95,6 +95,64 @@ def body(case, rec):
     raise Violation(bad[0] + ":pruning", bad[1] + " [vanishes when every raw match is glued: symmetry pruning]")
 
 
+def body_identity(case, rec):
+    """Results must not depend on which objects happen to share an id() over time (fault injection: a legal
+    adversarial id() is installed in the globals of all synkit modules; a decoy template is applied and freed
+    first so that a dead object's id is available for the template under test)."""
+    import gc
+
+    from vlib.adv_id import AdversarialId, installed
+
+    ti, si, di = case["tpl"], case["sub"], case["decoy"]
+    kind, invert, strategy = case["kind"], case["invert"], case["strategy"]
+    t0, _, style = cg.corpus()[ti]
+    s_rsmi = cg.corpus()[si][0]
+    r, p = s_rsmi.split(">>")
+    sub = cg.unmapped(p if invert else r)
+    d_rsmi, _, d_style = cg.corpus()[di]
+    dr, dp = d_rsmi.split(">>")
+    dsub = cg.unmapped(dp if invert else dr)
+    keys0 = rx.key_set(rx.make_reactor(sub, rx.template_graph(t0, kind), invert, strategy, style).smarts_list)
+    gc.collect()
+    adv = AdversarialId(case["reuse"])
+    with installed(adv):
+        tpl_d = rx.template_graph(d_rsmi, kind)
+        rx.make_reactor(dsub, tpl_d, invert, strategy, style).smarts_list
+        del tpl_d
+        gc.collect()
+        tpl = rx.template_graph(t0, kind)
+        keys1 = rx.key_set(rx.make_reactor(sub, tpl, invert, strategy, style).smarts_list)
+        keys2 = rx.key_set(rx.make_reactor(sub, tpl, invert, strategy, style).smarts_list)
+    rec.nt(len(keys0) >= 1)
+    rec.label("id-called" if adv.calls else "id-never-called", "ids-reused" if adv.reused else "no-reuse")
+    rec.show(dict(template=t0[:120], decoy=d_rsmi[:80], substrate=sub[:80], id_calls=adv.calls, reused=adv.reused))
+    if keys1 != keys0 or keys2 != keys0:
+        raise Violation(
+            "identity-dependence",
+            f"tpl=corpus[{ti}] {kind} sub=corpus[{si}] {'bw' if invert else 'fw'} {strategy}: {len(keys0)} results normally, "
+            f"{len(keys1)}/{len(keys2)} when a freed template's id() is handed to this template (decoy corpus[{di}])",
+        )
+
+
+def strat_identity(tier):
+    el = eligible()
+    styles = {i: cg.corpus()[i][2] for i in el}
+    by_style = {s: [i for i in el if styles[i] == s] for s in ("explicit", "implicit")}
+    return st.sampled_from(el).flatmap(
+        lambda t: st.fixed_dictionaries(
+            dict(
+                tpl=st.just(t),
+                sub=st.one_of(st.just(t), st.sampled_from(by_style[styles[t]])),
+                decoy=st.sampled_from(by_style[styles[t]]),
+                kind=st.sampled_from(["rc", "its"]),
+                invert=st.booleans(),
+                strategy=st.sampled_from(rx.STRATEGIES),
+                reuse=st.lists(st.booleans(), min_size=2, max_size=8).map(lambda b: [True] + b),
+            )
+        )
+    )
+
+
 def strat(tier):
     el = eligible()
     cls = centre_classes()
@@ -126,4 +184,5 @@ def strat(tier):
 
 SUBS = [
     Sub("metamorphic", body, strategy=strat, examples={"quick": 900, "thorough": 20000}, shards={"quick": 16, "thorough": 16}),
+    Sub("identity_independence", body_identity, strategy=strat_identity, examples={"quick": 400, "thorough": 8000}, shards={"quick": 16, "thorough": 16}, shrink=False),
 ]
